@@ -198,9 +198,15 @@ CLAIMS = {
              "number i < 4 from the broadcast pool; n+1 due passes put exactly announcement, n FD.TP.DT frames in order and the end-of-message "
              "status on the bus, delete the record and return i; any node without a stale record for (i, source) handling these frames at "
              "arbitrary times delivers the message exactly once byte-identical with the announced PGN and keeps no record (two parties "
-             "composed through the frame bytes: C03-22 layouts and decoders, segment frames, reception).  Partial: the connection-mode send "
-             "loop and the interleaving of concurrent sessions on 2-3 stacks are established by the lock-step correspondence (nominal, "
-             "hostile, lossy scripts with table dumps) and the network oracle, not by one theorem.",
+             "composed through the frame bytes: C03-22 layouts and decoders, segment frames, reception); CONNECTION MODE END TO END "
+             "(c02_rtscts_end_to_end, c02_rtscts_round, fd_dispatch): accepted destination-specific message of 61 .. 2^24-1 bytes takes "
+             "number i < 8; responder receives the RTS through notify(), originator the CTS, then rounds (originator pass -> responder "
+             "receives its FD.TP.DT segments and finally the end-of-message status through notify() -> originator receives CTS / "
+             "acknowledgement through notify()) under ANY schedule that finds the record due, any two window limits: after at most n+1 "
+             "rounds delivered exactly once byte-identical, one acknowledgement reported, no record on either side, number i returned to "
+             "the RTS/CTS pool (invariant over windows, induction on the segments left; originator without minimum packet interval).  "
+             "Partial: timeouts/loss are C06's, pre-emption C08's; the interleaving of concurrent sessions on 2-3 stacks is established by "
+             "the lock-step correspondence (nominal, hostile, lossy scripts with table dumps) and the network oracle, not by one theorem.",
         note="Proved/validated for the code as repaired by fix commits D5+D3, D22, D2, D24, D4, D23b (known_findings.json). Trusted: Lean kernel; "
              "numpy chunking modelled as 60-byte chunks (differential-tested); handler atomicity (latency > 0 as the property states).",
         technique="Lean 4 theorems over a hand model of j1939_22.py with regenerated leaves; lock-step correspondence; network oracle on real stacks",
